@@ -87,6 +87,7 @@ impl BlockBuilder {
             e2
         })?;
 
+        super::scope::check_parsed_scopes(&source_result.scopes)?;
         for scope in source_result.scopes.into_iter() {
             let scope = match scope.into() {
                 Scope::Parameter(name) => match scope_params.get(&name) {
@@ -124,7 +125,7 @@ impl BlockBuilder {
         }
 
         for (_, rule) in source_result.rules.into_iter() {
-            let mut rule: Rule = rule.into();
+            let mut rule = Rule::from_parsed(rule)?;
             for (name, value) in &params {
                 let res = match rule.set(name, value) {
                     Ok(_) => Ok(()),
@@ -154,7 +155,7 @@ impl BlockBuilder {
         }
 
         for (_, check) in source_result.checks.into_iter() {
-            let mut check: Check = check.into();
+            let mut check = Check::from_parsed(check)?;
             for (name, value) in &params {
                 let res = match check.set(name, value) {
                     Ok(_) => Ok(()),
